@@ -113,59 +113,62 @@ def tc_cells(s):
     return d
 
 
-def tc_fold_null(got, aggs):
-    """fold the nameless series (_) into the NULL series (~), cell by cell.  A side is known to be empty only through a
-    count(*) of 0; a side whose values are all 0 without a count may be empty or may hold events whose aggregate is 0.
-    count/sum add up either way; min/max/avg/dc of two sides that both (may) hold events cannot be folded exactly: the
-    candidates are listed (anyof:) or the value is not compared (any)."""
-    out = {k: v for k, v in got.items() if not k.endswith(":_")}
-    ci = [i for i, a in enumerate(aggs) if a == "count"]
+ZEROISH = ("0", "none", "missing")
 
-    def empty(v):
-        if ci and len(v) == len(aggs):
-            return v[ci[0]] in ("0", "none", "missing")
-        return None if all(y in ("0", "none", "missing") for y in v) else False
+
+def tc_fold_null(got, aggs):
+    """put the nameless series (_) next to the NULL series (~), cell by cell: the value becomes pair:<x>|<y>; whether the
+    pair can be the two halves of the expected NULL series is decided per aggregate by tc_val_ok."""
+    out = {k: v for k, v in got.items() if not k.endswith(":_")}
     for k, v in got.items():
         if not k.endswith(":_"):
             continue
         nk = k[:-1] + "~"
         w = out.get(nk)
-        if w is None or empty(w) is True:
+        if w is None or len(w) != len(v):
             out[nk] = v
-            continue
-        if empty(v) is True:
-            continue
-        ev_, ew_ = empty(v), empty(w)
-        m = []
-        for a, x, y in zip(aggs, v, w):
-            fn = a.split(".")[0]
-            try:
-                fx, fy = Fraction(x), Fraction(y)
-            except Exception:
-                m.append("any")
-                continue
-            if fn in ("count", "sum"):
-                m.append(str(fx + fy))
-            elif fn in ("min", "max"):
-                both = str(min(fx, fy) if fn == "min" else max(fx, fy))
-                cands = [both] + ([str(fx)] if ew_ is None else []) + ([str(fy)] if ev_ is None else [])
-                m.append("anyof:" + "|".join(cands))
-            elif ew_ is None and ev_ is False:
-                m.append("anyof:%s|any" % fx)
-            elif ev_ is None and ew_ is False:
-                m.append("anyof:%s|any" % fy)
-            else:
-                m.append("any")
-        out[nk] = m
+        elif all(y in ZEROISH for y in v) and all(y in ZEROISH for y in w):
+            pass  # both halves report nothing in this cell
+        else:
+            out[nk] = ["pair:%s|%s" % (x, y) for x, y in zip(v, w)]
     return out
 
 
 def tc_val_ok(a, e, g):
-    if g == "any":
+    """a reported value against the expected one.  pair:x|y = the two halves of a split NULL series: a half that prints 0
+    may be empty or may hold events whose aggregate is 0 (the engine prints 0 for both), so: count/sum — the halves add up;
+    min/max — the expected value is the min/max of both, or one half alone when the other prints 0; avg — one half alone
+    when the other prints 0, else a weighted mean, i.e. between the halves; dc — between the larger half and their sum."""
+    if not g.startswith("pair:"):
+        return agg_ok(a, e, g)
+    if e == "none":
         return True
-    if g.startswith("anyof:"):
-        return any(c == "any" or agg_ok(a, e, c) for c in g[6:].split("|"))
-    return agg_ok(a, e, g)
+    x, _, y = g[5:].partition("|")
+    try:
+        fx = Fraction(0) if x in ZEROISH else Fraction(x)
+        fy = Fraction(0) if y in ZEROISH else Fraction(y)
+        fe = Fraction(e)
+    except Exception:
+        return False
+    fn = a.split(".")[0]
+    if fn in ("count", "sum"):
+        return agg_ok(a, e, str(fx + fy))
+    cands = []
+    if x in ZEROISH:
+        cands.append(fy)
+    if y in ZEROISH:
+        cands.append(fx)
+    if fn in ("min", "max"):
+        cands.append(min(fx, fy) if fn == "min" else max(fx, fy))
+        return any(agg_ok(a, e, str(c)) for c in cands)
+    if any(agg_ok(a, e, str(c)) for c in cands):
+        return True
+    if fn == "avg":
+        lo, hi = min(fx, fy), max(fx, fy)
+        return lo <= fe <= hi or close(e, str(lo)) or close(e, str(hi))
+    if fn == "dc":
+        return max(fx, fy) <= fe <= fx + fy
+    return False
 
 
 def tc_diff(exp, got, aggs):
@@ -179,7 +182,7 @@ def tc_diff(exp, got, aggs):
             continue
         ev, gv = exp.get(k), got.get(k)
         if ev is None:
-            if any(x not in ("0", "none", "missing") for x in gv):
+            if any(x not in ZEROISH for x in gv):
                 diff.append((k, ";".join(gv), "no event in this cell"))
         elif gv is None:
             diff.append((k, None, ";".join(ev)))
